@@ -273,6 +273,38 @@ impl<'a> PGen<'a> {
     }
 
     pub fn gen_query(&mut self, u: &mut Choices, ctx: Option<&V>, vars: &Vars, depth: usize, simple: bool) -> Query {
+        if self.wide && depth > 0 && u.chance(1, 12) {
+            // `this` / `this.k` inside blocks and filters
+            let mut parts = if u.chance(1, 2) { vec![] } else { self.gen_parts(u, ctx, self.sz.nest) };
+            parts.retain(|p| !matches!(p, Part::Filter(_)));
+            return Query { head: Head::This, parts };
+        }
+        if self.wide && !simple && u.chance(1, 14) {
+            // map-key filter, or an interpolated key held by a literal variable
+            let mut parts = self.gen_parts(u, ctx, self.sz.nest);
+            let head = match parts.remove(0) {
+                Part::Key(k) => k,
+                _ => unreachable!(),
+            };
+            parts.retain(|p| !matches!(p, Part::Filter(_)));
+            let ks = KEYS[u.below(KEYS.len())];
+            if u.chance(1, 2) {
+                let (op, neg, rhs) = match u.below(3) {
+                    0 => (BinOp::Eq, false, Lit::V(V::s(ks))),
+                    1 => (BinOp::In, false, Lit::V(V::List(vec![V::s(ks), V::s("k"), V::s("a")]))),
+                    _ => (BinOp::Eq, true, Lit::Regex("^a".into())),
+                };
+                // a keys filter directly after a key, `*` or `[*]` only (anything else is ill-typed)
+                let pos = parts.iter().rposition(|p| matches!(p, Part::Key(_) | Part::Star | Part::AllIdx)).map(|i| i + 1).unwrap_or(0);
+                parts.insert(pos, Part::KeysFilter { op, neg, rhs });
+                return Query { head: Head::Key(head), parts };
+            } else if let Some((name, _)) = vars.lvars.iter().find(|(_, l)| matches!(l, Lit::V(V::Str(s)) if !s.is_empty())) {
+                // documented shape: the interpolated key is last or followed by a key / [*]
+                let pos = parts.len();
+                parts.insert(pos, Part::VarKey(name.clone()));
+                return Query { head: Head::Key(head), parts };
+            }
+        }
         if !simple && !vars.qvars.is_empty() && u.chance(1, 5) {
             let name = vars.qvars[u.below(vars.qvars.len())].clone();
             let parts = self.gen_parts(u, None, depth);
@@ -406,6 +438,25 @@ impl<'a> PGen<'a> {
         let n = *u.pick(&[0usize, 0, 1, 2]);
         for _ in 0..n {
             let name = self.fresh(prefix);
+            if self.wide && u.chance(1, 6) {
+                // a function call over a query (wide fragment): the result is a query variable
+                let mut parts = self.gen_parts(u, ctx, self.sz.nest);
+                let head = match parts.remove(0) {
+                    Part::Key(k) => k,
+                    _ => unreachable!(),
+                };
+                let arg = Expr::Query { some: false, q: Query { head: Head::Key(head), parts } };
+                let call = match u.below(5) {
+                    0 => Call { name: "count".into(), args: vec![arg] },
+                    1 => Call { name: "to_upper".into(), args: vec![arg] },
+                    2 => Call { name: "to_lower".into(), args: vec![arg] },
+                    3 => Call { name: "parse_string".into(), args: vec![arg] },
+                    _ => Call { name: "regex_replace".into(), args: vec![arg, Expr::Lit(Lit::V(V::s("^(a)(.*)$"))), Expr::Lit(Lit::V(V::s("${2}${1}")))] },
+                };
+                vars.qvars.push(name.clone());
+                lets.push(Let { name, value: Expr::Call(call) });
+                continue;
+            }
             if u.chance(2, 5) {
                 let dv = self.doc_vals.clone();
                 let lit = gen_lit(u, &dv);
